@@ -7,6 +7,9 @@ global size_of usize == 8;
 
 //@include preamble/lex_types.rs
 //@include spec/lex_specs.rs
+//@include preamble/search.rs
+// arcstr `==`: equality of the texts (ASSUMED)
+#[verifier::external_body] fn xstr_text_eq(a: &Xstr, b: &Xstr) -> (r: bool) ensures r == (xtext(*a) == xtext(*b)) { unimplemented!() }
 
 //@type src/lex.rs struct TokenLocation
 
